@@ -12,7 +12,8 @@ from ..protos import http, dns, stun, rpc, smb
 
 PROP = "C19"
 PORTS = [0, 1, 22, 53, 80, 111, 445, 3478, 65535]
-RULE = ("corpus = valid requests of every application protocol/form, byte-mutated variants and DNS-query/STUN polyglots; two UDP "
+RULE = ("corpus = valid requests of every application protocol/form, byte-mutated variants, DNS-query/STUN polyglots and near-requests the responders refuse (other DNS types and classes, "
+        "reply-typed messages, RPC programs / versions out of range, single-fault HTTP / SSH requests, other SMB commands); two UDP "
         "placements per payload use the source port that makes the request's UDP checksum the 0xFFFF encoding, a quarter of the placements carries "
         "an Ethernet trailer after the IP datagram, and TCP placements include port pairs whose SYN cookie is exactly 0 / 0xFFFFFFFF; each payload is sent to 12 "
         "(sport, dport) pairs drawn from {0, 1, 22, 53, 80, 111, 445, 3478, 65535, random} x {IPv4, IPv6} over UDP and over "
@@ -148,6 +149,14 @@ def shard(ctx, budget_s):
                 m = gen.mutate(rng, u)
                 corpus.append((name + "_mut", m, m))
         corpus += polyglots(rng)
+        # queries with many questions: the replies are 0.3 - 2 KB long and 4 bytes per answer longer over IPv4 than over
+        # IPv6, so every size limit a responder might apply (512, 1232, 1452, ...) separates some placement from another
+        for _ in range(2):
+            nq = rng.choice([8, 10, 12, 16, 24, 40, 73, 91])
+            qs = [dns.question([bytes(rng.choice(b"abcdefghijklmnopqrstuvwxyz") for _x in range(rng.randrange(1, 12))), b"example", b"com"][rng.randrange(3):]) for _q in range(nq)]
+            m = dns.header(rng.getrandbits(16), 0x0100, nq) + b"".join(qs)
+            corpus.append(("dns_many", m, m))
+        corpus += rng.sample(gen.near_requests(rng), 8)
         for name, u, t in corpus:
             pls = placements(rng)
             ends = [gen.endp(rng, cfg, v6) for v6, _s, _d in pls]
